@@ -21,7 +21,17 @@ PKGDIR = {"server": "internal/server", "jobs": "internal/jobs", "dataset": "inte
           "conf": "internal/conf", "content": "internal/content", "datahub": ".", "main": "."}
 
 
+def netns(cmd):
+    """Runs go test in a private network namespace when possible: the repository's tests bind fixed
+    ports (7777, 25555) and collide with any other copy of the suite running on the machine."""
+    if cmd[:2] == ["go", "test"] and subprocess.run(["unshare", "-n", "true"], capture_output=True).returncode == 0:
+        import shlex
+        return ["unshare", "-n", "sh", "-c", "ip link set lo up; exec " + " ".join(shlex.quote(c) for c in cmd)]
+    return cmd
+
+
 def run(cmd, cwd, timeout=1500):
+    cmd = netns(cmd)
     try:
         r = subprocess.run(cmd, cwd=cwd, env=ENV, capture_output=True, text=True, timeout=timeout)
         return r.returncode, r.stdout + r.stderr
@@ -31,7 +41,7 @@ def run(cmd, cwd, timeout=1500):
 
 def main():
     d = os.path.abspath(sys.argv[1])
-    skip_jobs, only_jobs = "--skip-jobs" in sys.argv, "--only-jobs" in sys.argv
+    skip_jobs, only_jobs = "--skip-jobs" in sys.argv, "--only-jobs" in sys.argv or "--only-pkg" in sys.argv
     wt = "/tmp/verif-seedconfirm-%d" % os.getpid()
     subprocess.run(["git", "-C", "/repo", "worktree", "add", "--detach", "-q", wt, "HEAD"], check=True)
     res = {"dir": d}
@@ -73,8 +83,12 @@ def main():
         allp = [p for p in out.split() if p.startswith("github.com")]
         if skip_jobs:
             allp = [p for p in allp if not p.endswith("/internal/jobs")]
-        if only_jobs:
+        if only_jobs and "--only-pkg" not in sys.argv:
             allp = [p for p in allp if p.endswith("/internal/jobs")]
+        if "--only-pkg" in sys.argv:
+            suffix = sys.argv[sys.argv.index("--only-pkg") + 1]
+            allp = [p for p in allp if p.endswith(suffix)]
+            only_jobs = True
         rc, out = run(["go", "test", "-vet=off", "-count=1", "-timeout", "25m"] + allp, wt, 1700)
         res["suite_passes_with_change" + ("_without_jobs_pkg" if skip_jobs else "_jobs_pkg_only" if only_jobs else "")] = rc == 0
         if rc != 0:
